@@ -1,7 +1,7 @@
 import AnsiProofs.Props.C06d
 import AnsiProofs.Props.C09c
 import AnsiProofs.Props.C12b
-import AnsiModel.Generated.Methods
+import AnsiModel.Generated.Methods.GetItemCore
 /-
   Property C04, part c — the *generated* (statement-by-statement translated) body of
   `AnsiString.__getitem__` (`Gen.getItemCore` of `AnsiModel/Generated/Methods.lean`: the statements
